@@ -21,6 +21,15 @@ func (r *Run) orderDomFunc(fi *prog.FuncInfo, names map[string]string, side func
 	r.finishOD(fi.Name(), fi.Decl.Pos(), res, specText)
 }
 
+// orderDomEffect is orderDomFunc where reaching a call accepted by isEffect counts as the
+// result Sym("effect") and falling off the end as nil.
+func (r *Run) orderDomEffect(fi *prog.FuncInfo, isEffect func(call *ast.CallExpr) bool, names map[string]string, side func(odEnv) bool, spec func(odEnv) orderdom.Value, specText string) {
+	m := orderdom.New(fi.Pkg.TypesInfo, names)
+	m.Effect = isEffect
+	res := m.CheckFunc(fi.Decl.Body, side, spec)
+	r.finishOD(fi.Name(), fi.Decl.Pos(), res, specText)
+}
+
 // orderDomExpr is orderDomFunc for a single expression inside function `where`.
 func (r *Run) orderDomExpr(info *types.Info, e ast.Expr, where string, names map[string]string, side func(odEnv) bool, spec func(odEnv) orderdom.Value, specText string) {
 	m := orderdom.New(info, names)
